@@ -559,6 +559,33 @@ func runC02(r *Rand, tier string, o *Out) {
 			}
 		}
 	}
+	// an opaque value with a long list (or map) of elements of a fixed size — a few thousand bytes, on both sides of
+	// every multiple of 4096 — followed by another member: what follows the list stays where it is
+	for _, n := range []int{1023, 1024, 1025, 1500, 2048, 2600, 4000} {
+		num := func(k uint64) *tval { return &tval{kind: 'n', n: k} }
+		l := &tval{kind: '['}
+		mp := &tval{kind: '{'}
+		for j := 0; j < n; j++ {
+			l.elems = append(l.elems, num(uint64(j*7+1)))
+			if j < n/2+1 {
+				mp.elems = append(mp.elems, num(uint64(j)), num(uint64(j*3+1)))
+			}
+		}
+		for _, g := range []*gval{
+			{kind: "O", sig: parseSigT("([I]I)"), tv: &tval{kind: '(', elems: []*tval{l, num(77)}}},
+			{kind: "O", sig: parseSigT("([I]I)<Scan,ranges,seq>"), tv: &tval{kind: '(', elems: []*tval{l, num(78)}}},
+			{kind: "O", sig: parseSigT("({II}I)"), tv: &tval{kind: '(', elems: []*tval{mp, num(79)}}},
+		} {
+			enc := g.encode()
+			tail := r.Bytes(1 + r.Intn(3))
+			res := o.Do("P", "val.read "+hx(append(append([]byte{}, enc...), tail...)), true)
+			want := fmt.Sprintf("ok %s rest=%d re=%s", g.render(), len(tail), hx(enc))
+			o.Count("val:long-list-of-fixed-size-elements-then-a-member")
+			if res != want {
+				o.Fail("dynamic value does not round-trip: a long list of fixed-size elements followed by a member", fmt.Sprintf("val.read (%d elements in %s) => %s…", n, g.sig.String(), tail2(res, 100)))
+			}
+		}
+	}
 	// several opaque values of one small signature whose only member is a dynamic value, side by side in one list:
 	// each keeps its own content (the nested values often have the same signature and other contents)
 	for i := 0; i < 60; i++ {
